@@ -39,7 +39,8 @@ type testFile struct {
 	size    int64  // decompressedSize
 	decoded []byte // concatenation of the chunk blocks (valid files only)
 	valid   bool
-	stored  bool // uses the harness "stored" codec instead of raczlib
+	stored  bool   // uses the harness "stored" codec instead of raczlib
+	seed    uint64 // chunk data are slices of the genByte stream `seed` (checked in caseLine)
 	desc    string
 }
 
@@ -101,7 +102,13 @@ func (tf *testFile) caseLine(id int) string {
 		if c.trunc {
 			t = "u"
 		}
-		fmt.Fprintf(&sb, " %d:%d:%s:%s", c.lo, c.hi, t, dataSpec(c.data))
+		spec := ""
+		if len(c.data) >= 8 && bytes.Equal(c.data, genData(tf.seed, c.lo, len(c.data))) {
+			spec = fmt.Sprintf("g%d@%d+%d", tf.seed, c.lo, len(c.data))
+		} else {
+			spec = dataSpec(c.data)
+		}
+		fmt.Fprintf(&sb, " %d:%d:%s:%s", c.lo, c.hi, t, spec)
 	}
 	return sb.String()
 }
@@ -118,9 +125,9 @@ const (
 
 type storedCodec struct{}
 
-func (*storedCodec) Close() error               { return nil }
-func (*storedCodec) Accepts(c rac.Codec) bool   { return c == rac.CodecLZ4 }
-func (*storedCodec) Clone() rac.CodecReader     { return &storedCodec{} }
+func (*storedCodec) Close() error             { return nil }
+func (*storedCodec) Accepts(c rac.Codec) bool { return c == rac.CodecLZ4 }
+func (*storedCodec) Clone() rac.CodecReader   { return &storedCodec{} }
 func storedPrimary(style byte, payload []byte) []byte {
 	b := make([]byte, 5+len(payload))
 	b[0] = style
@@ -277,28 +284,31 @@ func (tf *testFile) describe() string {
 
 // ---- generators
 
-// genData makes compressible bytes with occasional long zero runs.
-func genData(rng *hlib.Rand, n int) []byte {
+// genByte is byte i of the pseudo-random stream `seed`: 64-byte blocks that are all zero,
+// incompressible, or text-like. Model/Driver side: genByte in lean/Driver/C14.lean (so a chunk
+// whose decoded data is a slice of the stream is described to the model as g<seed>@<off>+<len>).
+func mix64(z uint64) uint64 {
+	z = (z ^ (z >> 30)) * 0xBF58476D1CE4E5B9
+	z = (z ^ (z >> 27)) * 0x94D049BB133111EB
+	return z ^ (z >> 31)
+}
+
+func genByte(seed uint64, i int64) byte {
+	h := mix64(seed + uint64(i/64)*0x9E3779B97F4A7C15)
+	switch h % 8 {
+	case 0:
+		return 0
+	case 1:
+		return byte(mix64(h + uint64(i%64)))
+	}
+	return byte(97 + (h>>8)%20 + mix64(h+uint64(i%64))%5)
+}
+
+// genData returns bytes off..off+n of the stream `seed`.
+func genData(seed uint64, off int64, n int) []byte {
 	b := make([]byte, n)
-	mode := rng.Intn(4)
-	i := 0
-	for i < n {
-		run := 1 + rng.Intn(200)
-		if i+run > n {
-			run = n - i
-		}
-		switch {
-		case mode != 0 && rng.Chance(1, 6): // zeros
-			// leave zero
-		case mode == 3 && rng.Chance(1, 2): // incompressible
-			copy(b[i:i+run], rng.Bytes(run))
-		default:
-			base := byte('a' + rng.Intn(20))
-			for j := 0; j < run; j++ {
-				b[i+j] = base + byte(rng.Intn(5))
-			}
-		}
-		i += run
+	for i := range b {
+		b[i] = genByte(seed, off+int64(i))
 	}
 	return b
 }
@@ -323,7 +333,8 @@ func genWriterFile(rng *hlib.Rand, big bool) (*testFile, []byte, string) {
 	for n > 700000 {
 		n /= 2
 	}
-	src := genData(rng, n)
+	seed := rng.Uint64()
+	src := genData(seed, 0, n)
 	buf := &bytes.Buffer{}
 	w := &rac.Writer{Writer: buf, CodecWriter: &raczlib.CodecWriter{}}
 	desc := fmt.Sprintf("F1 n=%d", n)
@@ -344,7 +355,7 @@ func genWriterFile(rng *hlib.Rand, big bool) (*testFile, []byte, string) {
 		desc += fmt.Sprintf(" cpage=%d", w.CPageSize)
 	}
 	if rng.Chance(1, 4) && n > 2000 {
-		w.ResourcesData = [][]byte{src[:1000], genData(rng, 500)}
+		w.ResourcesData = [][]byte{src[:1000], genData(seed+1, 0, 500)}
 		desc += " dict"
 	}
 	if _, err := w.Write(src); err != nil {
@@ -353,7 +364,7 @@ func genWriterFile(rng *hlib.Rand, big bool) (*testFile, []byte, string) {
 	if err := w.Close(); err != nil {
 		return nil, nil, "Writer.Close: " + err.Error()
 	}
-	return &testFile{family: "F1", enc: buf.Bytes(), desc: desc}, src, ""
+	return &testFile{family: "F1", enc: buf.Bytes(), desc: desc, seed: seed}, src, ""
 }
 
 func zlibCompress(b []byte) []byte {
@@ -393,6 +404,8 @@ func genChunkFile(rng *hlib.Rand, kind string) (*testFile, string) {
 		bad = rng.Intn(nChunks)
 	}
 	desc := fmt.Sprintf("%s chunks=%d", kind, nChunks)
+	seed := rng.Uint64()
+	dpos := int64(0)
 	for i := 0; i < nChunks; i++ {
 		dsize := sizes[rng.Intn(len(sizes))]
 		if rng.Chance(1, 3) {
@@ -410,7 +423,7 @@ func genChunkFile(rng *hlib.Rand, kind string) (*testFile, string) {
 			case 1:
 				explicit = rng.Intn(dsize + 1)
 			}
-			err = w.AddChunk(uint64(dsize), rac.CodecZlib, zlibCompress(genData(rng, explicit)), 0, 0)
+			err = w.AddChunk(uint64(dsize), rac.CodecZlib, zlibCompress(genData(seed, dpos, explicit)), 0, 0)
 		default: // stored
 			explicit := dsize
 			switch rng.Intn(4) {
@@ -442,11 +455,12 @@ func genChunkFile(rng *hlib.Rand, kind string) (*testFile, string) {
 					desc += fmt.Sprintf(" trunc@%d", i)
 				}
 			}
-			err = w.AddChunk(uint64(dsize), rac.CodecLZ4, storedPrimary(style, genData(rng, explicit)), 0, 0)
+			err = w.AddChunk(uint64(dsize), rac.CodecLZ4, storedPrimary(style, genData(seed, dpos, explicit)), 0, 0)
 		}
 		if err != nil {
 			return nil, "AddChunk: " + err.Error()
 		}
+		dpos += int64(dsize)
 	}
 	if err := w.Close(); err != nil {
 		return nil, "ChunkWriter.Close: " + err.Error()
@@ -455,5 +469,5 @@ func genChunkFile(rng *hlib.Rand, kind string) (*testFile, string) {
 	if strings.HasPrefix(kind, "stored") {
 		fam = "F3"
 	}
-	return &testFile{family: fam, enc: buf.Bytes(), stored: fam == "F3", desc: desc}, ""
+	return &testFile{family: fam, enc: buf.Bytes(), stored: fam == "F3", desc: desc, seed: seed}, ""
 }
